@@ -372,6 +372,29 @@ def run(ctx):
         r = QualityEncoding.encode(bnp.as_encoded_array(rows))
         ctx.check("numeric-roundtrip", r.tolist() == [[ord(c) - 33 for c in s] for s in rows], "quality-encoding/ragged-shape", "ragged quality encode changed rows", {"got": r.tolist()}, "q-rag")
 
+    def writable_source(case):
+        # already base-encoded text in a buffer the caller owns, presented to a digit / quality encoding: the codes are right and the caller's text is still its text
+        from bionumpy.encodings import DigitEncoding, QualityEncoding
+        import random
+        r = random.Random(case)
+        for ename_, enc_, alpha_, off_ in (("DigitEncoding", DigitEncoding, "0123456789", 48), ("QualityEncoding", QualityEncoding, "".join(chr(33 + q) for q in range(0, 60)), 33)):
+            rows_ = ["".join(r.choice(alpha_) for _ in range(r.randint(1, 6))) for _ in range(r.randint(1, 3))]
+            for shape_ in ("flat", "ragged"):
+                src = (bnp.as_encoded_array(rows_[0]) if shape_ == "flat" else bnp.as_encoded_array(rows_)).copy()
+                text0 = decode_text(src)
+                for route_ in ("as_encoded_array", "encode"):
+                    try:
+                        res_ = bnp.as_encoded_array(src, enc_) if route_ == "as_encoded_array" else enc_.encode(src)
+                    except Exception:
+                        ctx.count("writable_source_refused")
+                        continue
+                    raw_ = res_.raw() if hasattr(res_, "raw") else res_
+                    codes = [int(v) for v in np.asarray(raw_.ravel() if hasattr(raw_, "ravel") else raw_).tolist()]
+                    wantc = [ord(ch) - off_ for t_ in (rows_[:1] if shape_ == "flat" else rows_) for ch in t_]
+                    ctx.check("numeric-roundtrip", codes == wantc, "numeric-encoding/codes:%s" % ename_, "%s of %r gave codes %r" % (route_, text0, codes[:8]), {"encoding": ename_, "text": text0, "route": route_}, (ename_, tuple(text0), route_, "codes"))
+                    ctx.check("numeric-roundtrip", decode_text(src) == text0, "numeric-encoding/source-text-changed:%s" % ename_, "after %s(%s) the caller's text %r reads %r" % (route_, ename_, text0, decode_text(src)), {"encoding": ename_, "text": text0, "route": route_}, (ename_, tuple(text0), route_, "src"))
+        ctx.count("writable_sources")
+
     def labels(_):
         from bionumpy.encodings.string_encodings import StringEncoding
         labs = ["chr1", "chr10", "chr2", "chrX", "a"]
@@ -441,6 +464,19 @@ def run(ctx):
         ctx.check("decode-selection", got == want, "decode-selection-differs:%s" % kind, "%s.decode of a %s selection of %r gave %r, expected %r" % (name, kind, rows, got, want),
                   {"encoding": name, "rows": rows, "selection": kind, "idx": idx, "got": got, "want": want, "seed": case["seed"]}, (name, kind, tuple(want)) if sum(map(len, want)) else None)
         ctx.count("decode_selection")
+        if kind not in ("single-row", "flat") and r.random() < 0.3 and sum(map(len, want)):
+            # a copy of a fresh selection, then edited: the selection still decodes to its own text (the copy does not share its letters)
+            x3 = bnp.as_encoded_array(rows, enc)
+            sel3 = {"whole": lambda: x3[:], "reverse": lambda: x3[::-1], "perm": lambda: x3[np.array(idx)], "mask": lambda: x3[np.array([i in idx for i in range(n)])], "repeat": lambda: x3[np.array(idx)],
+                    "tail": lambda: x3[idx[0]:] if idx else x3[n:], "step": lambda: x3[::2]}[kind]()
+            cp = sel3.copy()            # nothing has touched sel3 before the copy
+            i3 = next(i_ for i_, t_ in enumerate(want) if t_)
+            other_letter = next((a_ for a_ in alphabet if a_.upper() != want[i3][0]), None)
+            if other_letter is not None:
+                cp[i3, 0] = other_letter
+                now3 = [t_.upper() for t_ in decode_text(sel3)]
+                ctx.check("decode-selection", now3 == want, "copy-of-a-selection-shares-its-letters:%s" % kind, "after editing a copy of a %s selection the selection reads %r, it was %r" % (kind, now3, want), {"encoding": name, "rows": rows, "selection": kind, "seed": case["seed"]}, (name, kind, tuple(want), "cp"))
+                ctx.count("copies_of_fresh_selections")
         again = decode_text(enc.decode(sel))
         if kind in ("single-row", "flat"):
             again = ["".join(again)]
@@ -493,6 +529,8 @@ def run(ctx):
         ctx.run_case(long_text, {"seed": ctx.seed * 7919 + ctx.shard * 104729 + i, "enc": (i + ctx.shard) % len(encs)})
     ctx.floor("long_texts", 4)
 
+    for i in range(ctx.share(ctx.pick(160, 2000))):
+        ctx.run_case(writable_source, ctx.seed * 131 + ctx.shard * 17 + i)
     if ctx.shard == 0:
         ctx.run_case(numeric, "numeric")
         ctx.run_case(labels, "labels")
